@@ -3,6 +3,8 @@ CONSTANTS
   Size = 3
   Triggers = {"f1", "f2", "f3"}
   Spawned = {"h1"}
+  Pickers = {}
+  Defect_PickOnlyEmpty = FALSE
   Closers = {"k1"}
   MaxFail = 2
   MaxKill = 1
